@@ -111,6 +111,11 @@ pub enum TOp {
 pub struct TabCase {
     style0: u8,
     ops: Vec<TOp>,
+    /// the bar starts without a visible target and becomes visible before op `.1`
+    /// (way 0: hidden target, later set_draw_target; way 1: configured stand-alone, later added to a
+    /// visible MultiProgress; way 2: member of a hidden MultiProgress that later gets the terminal)
+    #[serde(default)]
+    hidden: Option<(u8, u8)>,
 }
 
 fn text_strategy() -> BoxedStrategy<String> {
@@ -147,12 +152,12 @@ fn op_strategy() -> BoxedStrategy<TOp> {
 
 fn case_strategy(tier: Tier) -> BoxedStrategy<TabCase> {
     let n = tier.pick(14, 30);
-    (0..TEMPLATES.len() as u8, proptest::collection::vec(op_strategy(), 0..n), proptest::option::weighted(0.3, text_strategy()))
-        .prop_map(|(style0, mut ops, drop_msg)| {
+    (0..TEMPLATES.len() as u8, proptest::collection::vec(op_strategy(), 0..n), proptest::option::weighted(0.3, text_strategy()), proptest::option::weighted(0.3, (0u8..3, 0u8..12)))
+        .prop_map(|(style0, mut ops, drop_msg, hidden)| {
             if let Some(m) = drop_msg {
                 ops.push(TOp::DropWithMessage(m));
             }
-            TabCase { style0, ops }
+            TabCase { style0, ops, hidden }
         })
         .boxed()
 }
@@ -160,7 +165,19 @@ fn case_strategy(tier: Tier) -> BoxedStrategy<TabCase> {
 fn run_tabs(c: &TabCase) -> CaseResult {
     let _clk = clock::Armed::new();
     let vt = VTerm::raw(2000, 2000);
-    let mut pb = Some(ProgressBar::with_draw_target(Some(10), ProgressDrawTarget::term_like(vt.boxed())).with_style(make_style(c.style0, None)));
+    let mut visible = c.hidden.is_none();
+    let mut mp: Option<indicatif::MultiProgress> = None;
+    let first = match c.hidden {
+        None => ProgressBar::with_draw_target(Some(10), ProgressDrawTarget::term_like(vt.boxed())),
+        Some((way, _)) if way % 3 == 2 => {
+            let m = indicatif::MultiProgress::with_draw_target(ProgressDrawTarget::hidden());
+            let pb = m.add(ProgressBar::with_draw_target(Some(10), ProgressDrawTarget::hidden()));
+            mp = Some(m);
+            pb
+        }
+        Some(_) => ProgressBar::with_draw_target(Some(10), ProgressDrawTarget::hidden()),
+    };
+    let mut pb = Some(first.with_style(make_style(c.style0, None)));
     let (mut msg, mut prefix, mut tw, mut tmpl) = (String::new(), String::new(), 8usize, c.style0);
     let mut v = Verdict::default();
     // (text has a tab, set at op index); a width change after that index makes the case non-trivial
@@ -168,7 +185,23 @@ fn run_tabs(c: &TabCase) -> CaseResult {
     let mut changed_after = false;
     for (i, op) in c.ops.iter().enumerate() {
         clock::advance(std::time::Duration::from_millis(3));
-        let cur = pb.take().unwrap();
+        let mut cur = pb.take().unwrap();
+        if let Some((way, at)) = c.hidden {
+            if !visible && i >= at as usize {
+                // the bar gets its terminal now: everything set while it was hidden must show up expanded
+                match way % 3 {
+                    0 => cur.set_draw_target(ProgressDrawTarget::term_like(vt.boxed())),
+                    1 => {
+                        let m = indicatif::MultiProgress::with_draw_target(ProgressDrawTarget::term_like(vt.boxed()));
+                        cur = m.add(cur);
+                        mp = Some(m);
+                    }
+                    _ => mp.as_ref().unwrap().set_draw_target(ProgressDrawTarget::term_like(vt.boxed())),
+                }
+                visible = true;
+                v.label("configured_while_hidden_then_shown");
+            }
+        }
         let r = catch(|| -> Option<ProgressBar> {
             Some(match op {
                 TOp::SetTabWidth(w) => {
@@ -257,16 +290,23 @@ fn run_tabs(c: &TabCase) -> CaseResult {
             catch(|| p.force_draw()).map_err(|e| Fail::new("panic", format!("draw after op #{i} {op:?} panicked: {e}")))?;
         }
         ensure!(!vt.lock().tab_seen, "raw_tab", "after op #{i} {op:?}: a TAB character reached the terminal (ops {:?})", &c.ops[..=i]);
+        if !visible {
+            ensure!(vt.ncalls() == 0, "harness", "the hidden bar reached the terminal");
+            continue;
+        }
         let lines = vt.last_frame_lines().map_err(|e| Fail::new("harness", e))?;
         let want = expected_lines(segs, &msg, &prefix, tw);
         ensure!(
             lines == want,
             "frame",
-            "after op #{i} {op:?} (tab width {tw}, template {:?}): painted {lines:?}, expected {want:?}; ops {:?}",
+            "after op #{i} {op:?} (tab width {tw}, template {:?}, hidden until {:?}): painted {lines:?}, expected {want:?}; ops {:?}",
             template_string(segs),
+            c.hidden,
             &c.ops[..=i]
         );
     }
+    drop(pb);
+    drop(mp);
     v.nontrivial = changed_after;
     v.label_if(changed_after, "width_change_after_tab_text");
     v.label_if(c.ops.iter().any(|o| matches!(o, TOp::ReTemplate(_))), "retemplate_of_cloned_style");
@@ -292,7 +332,7 @@ pub fn property() -> Property {
             cases: |t| t.pick(6_000, 1_200_000),
             run: run_tabs,
             signature: no_signature,
-            essential: &["width_change_after_tab_text", "retemplate_of_cloned_style", "width_zero", "drop_with_message", "finish_message_with_tab"],
+            essential: &["width_change_after_tab_text", "retemplate_of_cloned_style", "width_zero", "drop_with_message", "finish_message_with_tab", "configured_while_hidden_then_shown"],
             workers: w,
             decode: None,
         })],
